@@ -8,6 +8,8 @@ set -u
 cd "$(dirname "$0")"
 export VERIF_ROOT="$PWD"
 export GOFLAGS=-mod=mod GOPROXY=off GOSUMDB=off GOTOOLCHAIN=local
+REPO="${VERIF_REPO:-/repo}"
+BIN="${VERIF_BIN:-$PWD/bin/verifctl}"
 WORK="$HOME/.cache/verif-work/c17-$$"
 trap 'rm -rf "$WORK"' EXIT
 mkdir -p "$WORK" bin
@@ -15,7 +17,7 @@ go build -o bin/yieldinstr ./tools/yieldinstr 2>bin/build-yi.log || { cat bin/bu
 CIRCL=$(go list -m -f '{{.Dir}}' github.com/cloudflare/circl 2>/dev/null)
 TAGS="verif"
 MODFLAG=""
-if [ -n "$CIRCL" ] && ./bin/yieldinstr -repo /repo -circl "$CIRCL" -out "$WORK" >bin/yieldinstr.log 2>&1; then
+if [ -n "$CIRCL" ] && ./bin/yieldinstr -repo "$REPO" -circl "$CIRCL" -out "$WORK" >bin/yieldinstr.log 2>&1; then
   sed -e "s#=> /repo#=> $WORK/patgo#" go.mod > "$WORK/go.mod"
   echo "replace github.com/cloudflare/circl => $WORK/circl" >> "$WORK/go.mod"
   cp go.sum "$WORK/go.sum"
@@ -31,11 +33,12 @@ else
   cat bin/yieldinstr.log >&2
 fi
 if [ ! -x "$WORK/verifctl-race" ]; then
-  go build -race -tags "verif" -o "$WORK/verifctl-race" ./cmd/verifctl 2>bin/build-race.log || { cat bin/build-race.log >&2; echo "INFRA: race build failed" >&2; exit 2; }
+  ALT=""; [ "$REPO" != "/repo" ] && { sed -e "s#=> /repo#=> $REPO#" go.mod > "$WORK/alt.mod"; cp go.sum "$WORK/alt.sum"; ALT="-modfile=$WORK/alt.mod"; }
+  go build -race $ALT -tags "verif" -o "$WORK/verifctl-race" ./cmd/verifctl 2>bin/build-race.log || { cat bin/build-race.log >&2; echo "INFRA: race build failed" >&2; exit 2; }
 fi
 export VERIF_RACE_BIN="$WORK/verifctl-race"
 if [ "${1:-}" = "--replay" ]; then
-  ./bin/verifctl replay "$2"; exit $?
+  "$BIN" replay "$2"; exit $?
 fi
-./bin/verifctl check "${2:-C17}" "${1:-quick}"
+"$BIN" check "${2:-C17}" "${1:-quick}"
 exit $?
